@@ -40,13 +40,20 @@ CloseStdin ==
   /\ writeClosed /\ outq = <<>> /\ ~stdinClosed /\ stdinClosed' = TRUE
   /\ UNCHANGED <<accepted, outq, childIn, writeClosed>>
 
-Next == (\E sh \in Shapes : AcceptItem(sh)) \/ WriteOne \/ CloseWrite \/ CloseStdin
+\* the reader task answers a rejected batch with an error line of its own (index 0), whenever
+\* it likes: it must be a line of its own, between two lines of the writer
+RejectionLine ==
+  /\ ~stdinClosed /\ Len(SelectSeq(childIn, LAMBDA x : x = 0)) < 1
+  /\ childIn' = Append(childIn, 0)
+  /\ UNCHANGED <<accepted, outq, writeClosed, stdinClosed>>
+
+Next == (\E sh \in Shapes : AcceptItem(sh)) \/ WriteOne \/ RejectionLine \/ CloseWrite \/ CloseStdin
 Spec == Init /\ [][Next]_vars /\ WF_vars(WriteOne) /\ WF_vars(CloseStdin)
 
 Ser(q) == SelectSeq(q, LAMBDA it : it[2] \notin Bad)
 Idx(q) == [i \in DOMAIN q |-> q[i][1]]
 \* one line per serialisable item, in the order sent; nothing else
-InOrderNoLoss == childIn \o Idx(Ser(outq)) = Idx(Ser(accepted))
+InOrderNoLoss == SelectSeq(childIn, LAMBDA x : x # 0) \o Idx(Ser(outq)) = Idx(Ser(accepted))
 ClosedOnlyAfterDrain == stdinClosed => writeClosed /\ outq = <<>>
 CloseReachesChild == writeClosed ~> stdinClosed
 =============================================================================
